@@ -495,6 +495,9 @@ pub struct RespPlan {
     pub stop_after_pieces: Option<usize>,
     /// wait for `Probe::gate2_open` right before this send operation ("send_response" / "send_trailers")
     pub hold: Option<&'static str>,
+    /// with `split`: read this many body pieces on the whole stream first and split then (possibly
+    /// in the middle of a DATA frame), instead of splitting right after the head
+    pub late_split: Option<usize>,
 }
 
 impl Default for RespPlan {
@@ -506,6 +509,7 @@ impl Default for RespPlan {
             read_request: true,
             stop_after_pieces: None,
             hold: None,
+            late_split: None,
         }
     }
 }
@@ -623,13 +627,31 @@ pub async fn server_request<B: BodyBuf>(
         }
     };
     if plan.split {
+        let mut stream = stream;
+        // late split: a few body pieces are read on the whole stream first
+        let mut stage = RecvStage::Start;
+        if let (Some(k), true) = (plan.late_split, plan.read_request) {
+            match server_recv_part::<B, _>(&mut stream, &actor, &probe, Some(k)).await {
+                Ok(st) => stage = st,
+                Err(()) => {
+                    drop(stream);
+                    probe.record(&actor, "handles", Out::Dropped);
+                    if latch {
+                        probe.latch_done();
+                        probe.latch_done();
+                    }
+                    return;
+                }
+            }
+            probe.record(&actor, "split", Out::Ok);
+        }
         let (send, recv) = stream.split();
         let ractor = format!("s:req@{}:recv", sid);
         let p2 = probe.clone();
         let read_request = plan.read_request;
         spawner.spawn(ractor.clone(), async move {
             let mut recv = recv;
-            if read_request {
+            if read_request && stage != RecvStage::Done {
                 let _ = server_recv_half::<B, _>(&mut recv, &ractor, &p2).await;
             }
             drop(recv);
@@ -656,12 +678,34 @@ pub async fn server_request<B: BodyBuf>(
     }
 }
 
+/// How far the reading of a message got (late split: the whole stream reads a few pieces, the
+/// receiving half carries on from `Body`).
+#[derive(Clone, Copy, Debug, PartialEq, Eq)]
+pub enum RecvStage {
+    Start,
+    Body,
+    Done,
+}
+
 async fn server_recv_half<B: BodyBuf, S: h3::quic::RecvStream>(
     s: &mut h3::server::RequestStream<S, B>,
     actor: &str,
     probe: &Probe,
 ) -> Result<(), ()> {
+    server_recv_part::<B, S>(s, actor, probe, None).await.map(|_| ())
+}
+
+async fn server_recv_part<B: BodyBuf, S: h3::quic::RecvStream>(
+    s: &mut h3::server::RequestStream<S, B>,
+    actor: &str,
+    probe: &Probe,
+    max_pieces: Option<usize>,
+) -> Result<RecvStage, ()> {
+    let mut pieces = 0usize;
     loop {
+        if max_pieces == Some(pieces) {
+            return Ok(RecvStage::Body);
+        }
         let r = probe
             .call(actor, "recv_data", s.recv_data(), |r| match r {
                 Ok(Some(b)) => {
@@ -673,7 +717,10 @@ async fn server_recv_half<B: BodyBuf, S: h3::quic::RecvStream>(
             })
             .await;
         match r {
-            Ok(Some(_)) => continue,
+            Ok(Some(_)) => {
+                pieces += 1;
+                continue;
+            }
             Ok(None) => break,
             Err(_) => return Err(()),
         }
@@ -685,7 +732,7 @@ async fn server_recv_half<B: BodyBuf, S: h3::quic::RecvStream>(
             Err(e) => se(e),
         })
         .await;
-    r.map(|_| ()).map_err(|_| ())
+    r.map(|_| RecvStage::Done).map_err(|_| ())
 }
 
 /// copy the content of an `impl Buf` reference without consuming the original
@@ -760,6 +807,9 @@ pub struct ReqPlan {
     pub stop_after_pieces: Option<usize>,
     /// wait for `Probe::gate2_open` right before this send operation ("send_trailers")
     pub hold: Option<&'static str>,
+    /// with `split`: send the request and read the response head plus this many body pieces on the
+    /// whole stream, split then and read the rest on the receiving half
+    pub late_split: Option<usize>,
 }
 
 impl Default for ReqPlan {
@@ -771,6 +821,7 @@ impl Default for ReqPlan {
             read_response: true,
             stop_after_pieces: None,
             hold: None,
+            late_split: None,
         }
     }
 }
@@ -874,7 +925,28 @@ pub async fn client_request<B: BodyBuf>(send: &mut CliSend<B>, plan: ReqPlan, pr
             return;
         }
     };
-    if plan.split {
+    if let (true, Some(k)) = (plan.split, plan.late_split) {
+        // late split: request sent and the first pieces of the response read on the whole stream
+        let mut stream = stream;
+        let ractor = format!("c:req#{}:recv", i);
+        if client_send_half::<B, _>(&mut stream, &plan, &actor, &probe, i as u64).await.is_ok() && plan.read_response {
+            if let Ok(RecvStage::Body) = client_recv_part::<B, _>(&mut stream, &actor, &probe, RecvStage::Start, Some(k)).await {
+                probe.record(&actor, "split", Out::Ok);
+                let (send_half, mut recv_half) = stream.split();
+                drop(send_half);
+                let _ = client_recv_part::<B, _>(&mut recv_half, &ractor, &probe, RecvStage::Body, None).await;
+                drop(recv_half);
+                probe.record(&ractor, "handles", Out::Dropped);
+                probe.latch_done();
+                probe.latch_done();
+                return;
+            }
+        }
+        drop(stream);
+        probe.record(&actor, "handles", Out::Dropped);
+        probe.latch_done();
+        probe.latch_done();
+    } else if plan.split {
         let (send_half, recv_half) = stream.split();
         let ractor = format!("c:req#{}:recv", i);
         let p2 = probe.clone();
@@ -951,17 +1023,33 @@ async fn client_recv_half<B: BodyBuf, S: h3::quic::RecvStream>(
     actor: &str,
     probe: &Probe,
 ) -> Result<(), ()> {
-    probe
-        .call(actor, "recv_response", s.recv_response(), |r| match r {
-            Ok(resp) => Out::Response {
-                status: resp.status().as_u16(),
-                headers: fields_of(resp.headers()),
-            },
-            Err(e) => se(e),
-        })
-        .await
-        .map_err(|_| ())?;
+    client_recv_part::<B, S>(s, actor, probe, RecvStage::Start, None).await.map(|_| ())
+}
+
+async fn client_recv_part<B: BodyBuf, S: h3::quic::RecvStream>(
+    s: &mut h3::client::RequestStream<S, B>,
+    actor: &str,
+    probe: &Probe,
+    from: RecvStage,
+    max_pieces: Option<usize>,
+) -> Result<RecvStage, ()> {
+    if from == RecvStage::Start {
+        probe
+            .call(actor, "recv_response", s.recv_response(), |r| match r {
+                Ok(resp) => Out::Response {
+                    status: resp.status().as_u16(),
+                    headers: fields_of(resp.headers()),
+                },
+                Err(e) => se(e),
+            })
+            .await
+            .map_err(|_| ())?;
+    }
+    let mut pieces = 0usize;
     loop {
+        if max_pieces == Some(pieces) {
+            return Ok(RecvStage::Body);
+        }
         let r = probe
             .call(actor, "recv_data", s.recv_data(), |r| match r {
                 Ok(Some(b)) => Out::Data(buf_bytes(b)),
@@ -970,7 +1058,10 @@ async fn client_recv_half<B: BodyBuf, S: h3::quic::RecvStream>(
             })
             .await;
         match r {
-            Ok(Some(_)) => continue,
+            Ok(Some(_)) => {
+                pieces += 1;
+                continue;
+            }
             Ok(None) => break,
             Err(_) => return Err(()),
         }
@@ -982,7 +1073,7 @@ async fn client_recv_half<B: BodyBuf, S: h3::quic::RecvStream>(
             Err(e) => se(e),
         })
         .await;
-    r.map(|_| ()).map_err(|_| ())
+    r.map(|_| RecvStage::Done).map_err(|_| ())
 }
 
 /// Used by Code-typed comparisons in monitors.
